@@ -45,6 +45,8 @@ enum Op {
     Copy(Vec<u8>),
     /// add_table(&pool.tables[i]) — a typed table whose compilation succeeds or fails
     Table(usize),
+    /// build() in the middle of the sequence: the SAME builder value is used for the ops that follow
+    Build,
 }
 
 /// Typed top-level tables handed to `FontBuilder::add_table`.
@@ -232,6 +234,8 @@ struct BuilderRun {
     table_ok: Vec<(usize, bool)>,
     /// contains(probe) for every probe tag after every op
     contains_after: Vec<Vec<bool>>,
+    /// output and ordered_tags() of every intermediate build() (Op::Build), in order
+    builds: Vec<(Vec<u8>, Vec<u32>)>,
 }
 
 /// Runs the ops on a real FontBuilder; returns build output (or the panic text) and the observations.
@@ -254,6 +258,11 @@ fn run_builder(ops: &[Op], pool: &Arc<Pool>, probes: &[u32]) -> (Result<Vec<u8>,
                 Op::Table(k) => {
                     let ok = pool.tables[*k].add_to(&mut b);
                     run.table_ok.push((i, ok));
+                }
+                Op::Build => {
+                    let order: Vec<u32> = b.ordered_tags().into_iter().map(tag_u32).collect();
+                    let bytes = b.build();
+                    run.builds.push((bytes, order));
                 }
             }
             run.contains_after.push(probes.iter().map(|t| b.contains(tag(*t))).collect());
@@ -312,6 +321,8 @@ fn apply_expected(m: &mut BTreeMap<u32, Vec<u8>>, op: &Op, pool: &Pool) {
             Op::Add(t, d) => {
                 m.insert(*t, d.clone());
             }
+            // build() hands the font over and leaves the builder empty
+            Op::Build => m.clear(),
             // a table that compiles is supplied under its tag; one that does not was never supplied
             Op::Table(k) => {
                 if let Ok(bytes) = &pool.dumps[*k] {
@@ -476,10 +487,87 @@ fn oracle(m: &BTreeMap<u32, Vec<u8>>, file: &[u8], order_reported: &[u32], obs: 
 
 // ---------------- generators ----------------
 
+/// Registered sfnt table tags (OpenType, Apple AAT, Graphite, IFT) and container signatures: the pool from
+/// which "some other real-world table" is drawn, so every tag a font tool might single out occurs together
+/// with its look-alikes.
+const REGISTRY: [&[u8; 4]; 84] = [
+    b"avar", b"BASE", b"bdat", b"BDF ", b"bhed", b"bloc", b"bsln", b"CBDT", b"CBLC", b"CFF ", b"CFF2", b"cmap", b"COLR", b"CPAL",
+    b"cvar", b"cvt ", b"DSIG", b"EBDT", b"EBLC", b"EBSC", b"fdsc", b"feat", b"fmtx", b"fond", b"fpgm", b"fvar", b"gasp", b"gcid",
+    b"GDEF", b"glyf", b"GPOS", b"GSUB", b"gvar", b"hdmx", b"head", b"hhea", b"hmtx", b"HVAR", b"JSTF", b"just", b"kern", b"kerx",
+    b"lcar", b"loca", b"ltag", b"LTSH", b"MATH", b"maxp", b"MERG", b"meta", b"mort", b"morx", b"MVAR", b"name", b"opbd", b"OS/2",
+    b"PCLT", b"post", b"prep", b"prop", b"sbix", b"STAT", b"SVG ", b"trak", b"VDMX", b"vhea", b"vmtx", b"VORG", b"VVAR", b"xref",
+    b"Zapf", b"Silf", b"Glat", b"Gloc", b"Feat", b"Sill", b"IFT ", b"IFTX", b"ttcf", b"OTTO", b"true", b"typ1", b"wOFF", b"wOF2",
+];
+
+/// 4-byte tag literals (`b"...."`) in the non-test part of the builder's source, read at run time from the tree
+/// under test (FV_REPO): the tags the code singles out.  A tag the code starts to special-case enters the
+/// generator's universe through this list, and the Coq model is asked to know exactly this set.
+fn source_special_tags() -> Vec<u32> {
+    let repo = std::env::var("FV_REPO").unwrap_or_else(|_| "/repo".to_string());
+    let mut out = vec![];
+    for f in ["write-fonts/src/font_builder.rs", "write-fonts/src/util.rs"] {
+        let Ok(src) = std::fs::read_to_string(format!("{}/{}", repo, f)) else { continue };
+        let src = src.split("#[cfg(test)]").next().unwrap_or("");
+        // drop comments so that prose does not count
+        let code: String = src.lines().map(|l| l.split("//").next().unwrap_or("")).collect::<Vec<_>>().join("\n");
+        let b = code.as_bytes();
+        let mut i = 0;
+        while i + 7 <= b.len() {
+            if b[i] == b'b' && b[i + 1] == b'"' && b[i + 6] == b'"' && (i == 0 || !(b[i - 1].is_ascii_alphanumeric() || b[i - 1] == b'_')) && b[i + 2..i + 6].iter().all(|c| (0x20..0x7f).contains(c) && *c != b'"' && *c != b'\\') {
+                out.push(u32::from_be_bytes([b[i + 2], b[i + 3], b[i + 4], b[i + 5]]));
+                i += 7;
+            } else {
+                i += 1;
+            }
+        }
+    }
+    out.sort();
+    out.dedup();
+    out
+}
+
+/// tags easily confused with `t`: registry tags sharing two positions or three letters with it, and small edits
+fn look_alikes(t: u32, universe: &[u32]) -> Vec<u32> {
+    let a = t.to_be_bytes();
+    let lower = |x: [u8; 4]| -> Vec<u8> { let mut v: Vec<u8> = x.iter().map(|c| c.to_ascii_lowercase()).collect(); v.sort(); v };
+    let la = lower(a);
+    let mut out: Vec<u32> = universe
+        .iter()
+        .copied()
+        .filter(|u| *u != t)
+        .filter(|u| {
+            let b = u.to_be_bytes();
+            let same_pos = (0..4).filter(|i| a[*i] == b[*i]).count();
+            let mut lb = lower(b);
+            let mut common = 0;
+            for c in &la {
+                if let Some(p) = lb.iter().position(|x| x == c) {
+                    lb.remove(p);
+                    common += 1;
+                }
+            }
+            same_pos >= 2 || common >= 3
+        })
+        .collect();
+    // small edits: case of the first letter, first two bytes swapped, last byte +-1, trailing space <-> '2'
+    let mut e = a;
+    e[0] ^= 0x20;
+    out.push(u32::from_be_bytes(e));
+    out.push(u32::from_be_bytes([a[1], a[0], a[2], a[3]]));
+    out.push(t.wrapping_add(1));
+    out.push(t.wrapping_sub(1));
+    out.retain(|u| *u != t);
+    out.sort();
+    out.dedup();
+    out
+}
+
 struct Gen {
     rng: Rng,
     thorough: bool,
     pool: Arc<Pool>,
+    /// REGISTRY plus the tag literals found in the source under test
+    universe: Vec<u32>,
 }
 
 impl Gen {
@@ -495,6 +583,9 @@ impl Gen {
             u32::from_be_bytes(**self.rng.pick(&TTF_ORDER))
         } else if r < 62 {
             u32::from_be_bytes(**self.rng.pick(&CFF_ORDER))
+        } else if r < 70 {
+            // a registered table tag or a tag the source under test mentions
+            *self.rng.pick(&self.universe)
         } else if r < 80 {
             // printable
             let mut b = [0u8; 4];
@@ -526,7 +617,7 @@ impl Gen {
         }
     }
     fn small_len(&mut self, t: u32) -> usize {
-        if t == HEAD && self.rng.chance(3, 4) {
+        if (t == HEAD && self.rng.chance(3, 4)) || self.rng.chance(1, 10) {
             *self.rng.pick(&[0usize, 7, 8, 9, 10, 11, 12, 13, 14, 15, 16, 17, 20, 54])
         } else if self.rng.chance(1, 8) {
             self.rng.range(18, 40) as usize
@@ -551,6 +642,18 @@ impl Gen {
             let t = self.gen_tag(st);
             if !tags.contains(&t) {
                 tags.push(t);
+            }
+        }
+        if !tags.is_empty() && self.rng.chance(1, 5) {
+            // a look-alike of one of the chosen tags rides along
+            let t = *self.rng.pick(&tags);
+            let la = look_alikes(t, &self.universe);
+            if !la.is_empty() {
+                let l = *self.rng.pick(&la);
+                if !tags.contains(&l) {
+                    tags.push(l);
+                    st.count("tag.look_alike_added");
+                }
             }
         }
         let mut ops = vec![];
@@ -585,8 +688,14 @@ impl Gen {
     }
 }
 
-fn coq_ops(ops: &[Op], pool: &Pool) -> String {
+fn coq_ops(ops: &[Op], pool: &Pool, builds: &[(Vec<u8>, Vec<u32>)]) -> String {
+    let nb = std::cell::Cell::new(0usize);
     clist(ops.iter(), |o| match o {
+        Op::Build => {
+            let k = nb.get();
+            nb.set(k + 1);
+            format!("(6, 0, {})", cbytes(&builds[k].0))
+        }
         Op::Add(t, d) => format!("(0, {}, {})", t, cbytes(d)),
         Op::Copy(src) => format!("(1, 0, {})", cbytes(src)),
         Op::Table(k) => match &pool.dumps[*k] {
@@ -631,6 +740,7 @@ fn builder_case(g: &mut Gen, ops: Vec<Op>, to_model: bool, st: &mut Stats, cw: &
         match op {
             Op::Add(t, _) => probes.push(*t),
             Op::Table(k) => probes.push(pool.tables[*k].tag()),
+            Op::Build => {}
             Op::Copy(src) => probes.extend(own_directory(src).map(|x| x.1.iter().map(|r| r.0).collect::<Vec<_>>()).unwrap_or_default()),
         }
     }
@@ -662,6 +772,7 @@ fn builder_case(g: &mut Gen, ops: Vec<Op>, to_model: bool, st: &mut Stats, cw: &
             }
         }
         let mut em: BTreeMap<u32, Vec<u8>> = BTreeMap::new();
+        let mut nbuild = 0usize;
         for (i, op) in ops.iter().enumerate() {
             if let Op::Table(k) = op {
                 if pool.dumps[*k].is_err() {
@@ -671,18 +782,44 @@ fn builder_case(g: &mut Gen, ops: Vec<Op>, to_model: bool, st: &mut Stats, cw: &
                     }
                 }
             }
+            if let Op::Build = op {
+                // an intermediate font of a reused builder: the whole property text applies to it as well
+                st.count("op.build_then_reuse");
+                if em.values().any(|d| d.is_empty()) {
+                    st.count("branch.reuse_after_font_with_zero_length_table");
+                }
+                if ops[i + 1..].iter().any(|o| matches!(o, Op::Copy(_))) {
+                    st.count("branch.reuse_copy_after_build");
+                }
+                if let Some((file, order)) = run.builds.get(nbuild) {
+                    let absent = absent_probes(&mut g.rng, &em);
+                    let mut q: Vec<u32> = em.keys().copied().collect();
+                    q.extend(absent.iter().copied());
+                    match read_obs(file, &q) {
+                        Ok(obs) => {
+                            let bad = oracle(&em, file, order, &obs, &absent);
+                            if !bad.is_empty() {
+                                st.oracle_failure(json!({"key": format!("{}:build#{}:{}", key, nbuild, bad[0]), "why": bad, "ntables": em.len()}));
+                            }
+                        }
+                        Err(e) => st.oracle_failure(json!({"key": format!("reader-panic:{}:build#{}", key, nbuild), "why": e})),
+                    }
+                }
+                nbuild += 1;
+            }
             apply_expected(&mut em, op, &pool);
             if let Some(got) = run.contains_after.get(i) {
                 for (t, c) in probes.iter().zip(got.iter()) {
                     if *c != em.contains_key(t) {
                         let what = match op {
+                            Op::Build => "build".to_string(),
                             Op::Add(..) => "add_raw".to_string(),
                             Op::Copy(_) => "copy_missing_tables".to_string(),
                             Op::Table(k) => format!("add_table({}: {})", pool.what[*k], if pool.dumps[*k].is_ok() { "compiles" } else { "fails" }),
                         };
                         st.oracle_failure(json!({
                             "key": format!("contains-after-{}", what),
-                            "why": format!("after op #{} = {}, contains({}) = {} but the tag was {} supplied", i, what, tag_str(*t), c, if em.contains_key(t) { "" } else { "never (successfully)" }),
+                            "why": format!("after op #{} = {}, contains({}) = {} but at this point the builder {} that tag", i, what, tag_str(*t), c, if em.contains_key(t) { "must hold" } else { "must not hold (never successfully supplied since the last build)" }),
                             "case": key,
                         }));
                         break;
@@ -713,8 +850,8 @@ fn builder_case(g: &mut Gen, ops: Vec<Op>, to_model: bool, st: &mut Stats, cw: &
             if n <= 4095 && total < (1u64 << 32) {
                 st.oracle_failure(json!({"key": format!("build-panic:{}", key), "why": format!("build panicked: {}", e), "ntables": n}));
             }
-            if to_model {
-                cw.push(format!("({}, [], None, (false, [], [], []))", coq_ops(&ops, &pool)));
+            if to_model && !ops.iter().any(|o| matches!(o, Op::Build)) {
+                cw.push(format!("({}, [], None, (false, [], [], []))", coq_ops(&ops, &pool, &[])));
             }
             return None;
         }
@@ -753,7 +890,7 @@ fn builder_case(g: &mut Gen, ops: Vec<Op>, to_model: bool, st: &mut Stats, cw: &
         st.nontrivial(&format!("{:?}", m));
     }
     if to_model {
-        cw.push(format!("({}, {}, Some {}, {})", coq_ops(&ops, &pool), coq_probes(&probes, &final_contains), cbytes(&file), coq_obs(&obs)));
+        cw.push(format!("({}, {}, Some {}, {})", coq_ops(&ops, &pool, &run.builds), coq_probes(&probes, &final_contains), cbytes(&file), coq_obs(&obs)));
         st.sample(json!({"tables": m.iter().map(|(t, d)| json!({"tag": tag_str(*t), "len": d.len()})).collect::<Vec<_>>(), "file_len": file.len(), "order": order.iter().map(|t| tag_str(*t)).collect::<Vec<_>>()}));
     }
     Some(file)
@@ -889,11 +1026,22 @@ fn main() {
         "From Coq Require Import ZArith List. Import ListNotations. Open Scope Z_scope.\nFrom FV Require Import Lib.Cases C06.Model.",
         "case",
         "check_case",
-        if thorough { 400 } else { 170 },
+        if thorough { 400 } else { 180 },
     );
     let mut rng0 = Rng::new(seed);
     let tpool = Arc::new(make_pool(&mut rng0, &mut st));
-    let mut g = Gen { rng: rng0, thorough, pool: tpool.clone() };
+    let mut g = Gen { rng: rng0, thorough, pool: tpool.clone(), universe: vec![] };
+    let src_tags = source_special_tags();
+    {
+        let mut u: Vec<u32> = REGISTRY.iter().map(|t| u32::from_be_bytes(**t)).collect();
+        u.extend(src_tags.iter().copied());
+        u.sort();
+        u.dedup();
+        g.universe = u;
+    }
+    st.v.insert("special_tags_in_source".into(), json!(src_tags.iter().map(|t| tag_str(*t)).collect::<Vec<_>>()));
+    // tie: the model's special_tags must be exactly the tags the source singles out
+    cw.push(format!("([(5, 0, {})], [], None, (false, [], [], []))", czlist(src_tags.iter().map(|t| *t as i128))));
     let n_model = if thorough { 24_000 } else { 2_000 };
     let n_big = if thorough { 20_000 } else { 1_500 };
     let n_malformed = if thorough { 6_000 } else { 500 };
@@ -907,9 +1055,50 @@ fn main() {
         TTF_ORDER.iter().rev().map(|t| Op::Add(u32::from_be_bytes(**t), vec![t[0]; (t[1] % 7) as usize])).chain([Op::Add(DSIG, vec![1]), Op::Add(u32::from_be_bytes(*b"ZZZZ"), vec![2]), Op::Add(u32::from_be_bytes(*b"AAAA"), vec![3])]).collect(),
         CFF_ORDER.iter().rev().map(|t| Op::Add(u32::from_be_bytes(**t), vec![t[2]; (t[3] % 5) as usize])).chain([Op::Add(DSIG, vec![]), Op::Add(u32::from_be_bytes(*b"glyf"), vec![2, 2])]).collect(),
         vec![Op::Add(0, vec![1]), Op::Add(0xFFFF_FFFF, vec![2, 3]), Op::Add(0x8000_0000, vec![4, 5, 6])],
+        // reused builder: fonts with empty / non-empty tables, then more fonts from the same builder value
+        vec![Op::Add(u32::from_be_bytes(*b"FOO "), vec![]), Op::Add(HEAD, (0..13).collect()), Op::Build, Op::Add(u32::from_be_bytes(*b"BAR "), vec![1, 2])],
+        vec![Op::Add(u32::from_be_bytes(*b"FOO "), vec![]), Op::Build, Op::Build],
+        vec![Op::Build, Op::Add(DSIG, vec![]), Op::Add(CFF, vec![]), Op::Add(HEAD, vec![]), Op::Build, Op::Add(CFF, vec![7]), Op::Build, Op::Add(HEAD, vec![9; 12])],
     ];
     for (i, ops) in fixed.into_iter().enumerate() {
         builder_case(&mut g, ops, true, &mut st, &mut cw, &format!("fixed{}", i));
+    }
+    // every tag the source singles out, paired with each of its look-alikes, lengths on both sides of the
+    // 12-byte head boundary, with and without ordinary company, in both insertion orders
+    {
+        let lens = [0usize, 5, 11, 12, 13, 16, 54];
+        let mut specials = src_tags.clone();
+        specials.extend([HEAD, CFF, DSIG]);
+        specials.sort();
+        specials.dedup();
+        let uni = g.universe.clone();
+        for s_tag in specials {
+            let mut las = look_alikes(s_tag, &uni);
+            if !thorough && las.len() > 6 {
+                // registry look-alikes first (they are the ones a font tool would special-case), then a sample of edits
+                let reg: Vec<u32> = las.iter().copied().filter(|t| uni.contains(t)).collect();
+                let mut rest: Vec<u32> = las.iter().copied().filter(|t| !uni.contains(t)).collect();
+                g.rng.shuffle(&mut rest);
+                las = reg.into_iter().chain(rest).take(6).collect();
+            }
+            for l_tag in las {
+                let ls = *g.rng.pick(&lens);
+                let ll = *g.rng.pick(&lens);
+                let mut ops = vec![Op::Add(s_tag, g.gen_bytes(ls.max(if s_tag == HEAD { 12 } else { 0 }))), Op::Add(l_tag, g.gen_bytes(ll))];
+                if g.rng.chance(1, 2) {
+                    let hl = *g.rng.pick(&[12usize, 13, 54]);
+                    ops.push(Op::Add(HEAD, g.gen_bytes(hl)));
+                }
+                if g.rng.chance(1, 2) {
+                    let t = g.gen_tag(&mut st);
+                    let l = g.small_len(t);
+                    ops.push(Op::Add(t, g.gen_bytes(l)));
+                }
+                g.rng.shuffle(&mut ops);
+                st.count("special_x_look_alike_pairs");
+                builder_case(&mut g, ops, true, &mut st, &mut cw, &format!("pair:{}x{}", tag_str(s_tag), tag_str(l_tag)));
+            }
+        }
     }
     // every typed table of the pool once on its own, once over a raw table with its tag, and once before a
     // copy from a font that has its tag (built here from raw bytes)
@@ -921,7 +1110,10 @@ fn main() {
         let (src, _) = run_builder(&[Op::Add(t, vec![9, 8, 7, 6, 5]), Op::Add(u32::from_be_bytes(*b"FOO "), vec![4; 5])], &tpool, &[]);
         if let Ok(src) = src {
             builder_case(&mut g, vec![Op::Table(k), Op::Copy(src.clone())], small, &mut st, &mut cw, &format!("typed-then-copy:{}", tpool.what[k]));
-            builder_case(&mut g, vec![Op::Copy(src), Op::Table(k)], small, &mut st, &mut cw, &format!("copy-then-typed:{}", tpool.what[k]));
+            builder_case(&mut g, vec![Op::Copy(src.clone()), Op::Table(k)], small, &mut st, &mut cw, &format!("copy-then-typed:{}", tpool.what[k]));
+            // reuse: a first font holding this tag (typed, or raw and empty), build, then a copy from a font that has it
+            builder_case(&mut g, vec![Op::Add(t, vec![]), Op::Table(k), Op::Build, Op::Copy(src.clone())], small, &mut st, &mut cw, &format!("typed-build-copy:{}", tpool.what[k]));
+            builder_case(&mut g, vec![Op::Table(k), Op::Add(DSIG, vec![]), Op::Build, Op::Table(k), Op::Build, Op::Copy(src)], small, &mut st, &mut cw, &format!("typed-build-typed-build-copy:{}", tpool.what[k]));
         }
     }
 
@@ -969,6 +1161,13 @@ fn main() {
                 st.count("op.copy_missing_tables");
             }
         }
+        // builder reuse: build() in the middle of the sequence, the same builder value goes on
+        if g.rng.chance(1, 4) {
+            for _ in 0..1 + g.rng.below(2) {
+                let at = g.rng.below(ops.len() as u64 + 1) as usize;
+                ops.insert(at, Op::Build);
+            }
+        }
         // count copy outcomes independently
         {
             let mut m: BTreeMap<u32, Vec<u8>> = BTreeMap::new();
@@ -977,6 +1176,7 @@ fn main() {
                     Op::Add(t, d) => {
                         m.insert(*t, d.clone());
                     }
+                    Op::Build => m.clear(),
                     Op::Table(k) => {
                         if let Ok(b) = &tpool.dumps[*k] {
                             m.insert(tpool.tables[*k].tag(), b.clone());
@@ -1032,6 +1232,12 @@ fn main() {
             ops.insert(at, Op::Copy(g.rng.pick(&pool).clone()));
             st.count("op.copy_missing_tables");
         }
+        if g.rng.chance(1, 4) {
+            for _ in 0..1 + g.rng.below(2) {
+                let at = g.rng.below(ops.len() as u64 + 1) as usize;
+                ops.insert(at, Op::Build);
+            }
+        }
         builder_case(&mut g, ops, false, &mut st, &mut cw, &format!("big{}", i));
     }
 
@@ -1066,7 +1272,7 @@ fn main() {
             Err(e) => json!({"panics": e}),
         });
         // same case for the model: it must predict the panic (or the bytes) as well
-        cw.push(format!("({}, [], {}, (false, [], [], []))", coq_ops(&ops, &tpool), match &built {
+        cw.push(format!("({}, [], {}, (false, [], [], []))", coq_ops(&ops, &tpool, &[]), match &built {
             Ok(_) => "Some []".to_string(),
             Err(_) => "None".to_string(),
         }));
